@@ -39,7 +39,7 @@ def pool_chunks():
     """deterministic partition of the allow-list into translation units (independent of the seed, so binaries are shared by all
     seeds and both tiers): {"core": [...], "A": [...], "B": [...], "C": [...]}, each a list of chunks of <= TU_SIZE entries"""
     sup = G.load_supported()
-    core_keys = [G.spec_key(s) for s in G.core_specs()]
+    core_keys = [G.spec_base_key(s) for s in G.core_specs()]
     by_base = {}
     for e in sup["supported"]:
         by_base.setdefault(G.spec_base_key(e["spec"]), e)
